@@ -29,6 +29,13 @@ PLAN = {
     "C12": {"level": "model_checking", "campaigns": [camp("c12", C.camp_c12)]},
     "C13": {"level": "model_checking", "campaigns": [camp("c13", C.camp_c13)]},
     "C19": {"level": "model_checking", "campaigns": [camp("c19", C.camp_c19)]},
+    "C14": {"level": "model_checking", "campaigns": [camp("c14", C.camp_c14, {"quick": ["opt"], "thorough": ["opt"]})]},
+    "C15": {"level": "model_checking", "campaigns": [camp("c15", C.camp_c15, {"quick": ["opt"], "thorough": ["opt"]})]},
+    "C16": {"level": "model_checking", "campaigns": [camp("c16", C.camp_c16, {"quick": ["opt"], "thorough": ["opt"]})]},
+    "C17": {"level": "model_checking", "campaigns": [camp("c17", C.camp_c17, QC)]},
+    "C18": {"level": "exploration", "probe": True, "campaigns": [camp("c18", C.camp_c18, {"quick": ["opt"], "thorough": ["opt", "chk"]})],
+            "assumptions": ["real thread schedules are sampled (2-16 threads released by a barrier, repeated batches), not enumerated; a data race that changes no answer in the sampled schedules is invisible to this technique",
+                            "Send + Sync is decided exactly by the compile-time probe crate /verif/probe"]},
 }
 
 _TV = "TLC trace validation of recorded executions of the real library against the Level-0 TLA+ clause tables (TraceLib.tla)"
@@ -70,6 +77,19 @@ for _p in list(NOT_APPLICABLE):
 TEXTS["C04"] = _t("Total-argument campaign: every kind, every way of obtaining a value (constructors, Default, Clone, serde round trip, rebuilt from its iterator, conversions) and every safe method with arguments from the whole domain (0, boundaries +-1, eight huge tokens up to usize::MAX, symbols 4..=255 on quad structures, symbols far above max), in the optimized build and in the build with debug assertions and overflow checks; TLC rejects any panic, crash or hang outside the documented-panic clauses, any Some for an invalid argument, and any out-of-range index reported by the unchecked-index monitor.",
                    _TV + "; whole-domain argument enumeration in two build profiles; cfg(qwt_verif) unchecked-index monitor",
                    "Exploration level: the argument families are enumerated per kind but inputs are sampled. Not observable: allocator-level UB without a crash, reads inside an allocation but outside the intended field. Trusted: TLC, harness rendering, the index monitor's site list (DESIGN.md Appendix C).")
+for _p in list(NOT_APPLICABLE):
+    if _p in PLAN:
+        del NOT_APPLICABLE[_p]
+
+TEXTS.update({
+    "C14": _t("The heap bytes each plain structure keeps alive (counting allocator, input dropped) are compared by TLC with the layout bound of Space.tla: per level 2 bits/symbol (1 bit for WT) plus the stated relative overhead plus 1 % plus a per-level constant, for all construction paths and n up to 4*10^5 (quick) / 2*10^6 (thorough).", _TV + "; Space.tla layout bounds in integer arithmetic",
+               "Trusted: the harness's counting global allocator (requested bytes, live at the end of construction), TLC. The per-level constants (1 KiB, 2 KiB with prefetch support, 512 B for binary levels) are the 'term proportional to the number of levels' of the statement."),
+    "C15": _t("For Huffman-shaped trees TLC computes an upper bound of n*H0 from the symbol counts (fixed-point log2, rounded so that the bound is never stricter than stated) and checks level data <= n*(H0 + 2 | 1), level data <= plain tree's level data, and heap <= per-level layout bound + symbol-indexed tables.", _TV + "; Space.tla entropy bound with a fixed-point log2 table",
+               "The per-level lengths are read from the value's own serialized form (field `lens`) by a field-extracting serializer in the harness. A code that is non-optimal by less than about 0.05 bit/symbol is not detected."),
+    "C16": _t("space_usage_byte() against heap + size_of for every SpaceUsage kind and construction path: |reported - actual| <= 4 % + 256 B per component (+ 2304 B + 40 B per symbol value for Huffman code tables), and KiB/MiB/GiB equal the byte figure scaled (exact in f64).", _TV + "; Space.tla reported-vs-retained relation"),
+    "C17": _t("select_in_word over the whole in-byte table in every byte lane, few-bit, full-byte and random words; the u128 variant across the 64-bit seam; popcnt_wide, msb on all powers of two +-1 per type, stable partitions on all short sequences embedded at boundary shifts of every element type, text_remap on all short byte strings: each outcome computed independently by TLC from the definition.", _TV + "; exhaustive small families per primitive"),
+    "C18": _t("Send + Sync decided by a compile-time probe crate; purity by bit-identical bincode serialization before/after query batches run twice; sharing by 2-16 threads released together on one reference, every thread's answers compared with the sequential answers, which TLC judges against the clause tables.", _TV + "; compile-time auto-trait probe; sampled thread schedules"),
+})
 for _p in list(NOT_APPLICABLE):
     if _p in PLAN:
         del NOT_APPLICABLE[_p]
